@@ -73,7 +73,10 @@ fn uni_preamble<const CLS: u8>() {
     }
 }
 
-fn bi_preamble<const CLS: u8>() {
+/// bidirectional preamble, split in two halves that compose through the reference bytes (one harness holding both the
+/// async writer and the async typestate reader exhausted 20 GB): WRITER = real opener output == reference preamble;
+/// READER = real acceptor on reference preamble || application bytes
+fn bi_preamble_writer<const CLS: u8>() {
     let sid = session_id_of_class::<CLS>();
     let v = sid.into_u64();
     let h3 = Stream::open_bi().upgrade();
@@ -89,15 +92,18 @@ fn bi_preamble<const CLS: u8>() {
     rn += ref_varint_put(v, &mut refb[rn..]);
     assert!(w.off == rn && size == rn, "opener wrote a different number of bytes than the preamble");
     assert!(eq_prefix(&w.data, &refb, rn), "bidi preamble differs from varint(0x41)||varint(session id)");
+    kani::cover!(true, "preamble written");
+}
+
+fn bi_preamble_reader<const CLS: u8>() {
+    let sid = session_id_of_class::<CLS>();
+    let v = sid.into_u64();
+    let mut wire = [0u8; 16];
+    let mut rn = ref_varint_put(0x41, &mut wire);
+    rn += ref_varint_put(v, &mut wire[rn..]);
     let app: [u8; 4] = kani::any();
     let k: usize = kani::any();
     kani::assume(k <= 4);
-    let mut wire = [0u8; 16];
-    let mut i = 0;
-    while i < rn {
-        wire[i] = w.data[i];
-        i += 1;
-    }
     let mut i = 0;
     while i < k {
         wire[rn + i] = app[i];
@@ -122,7 +128,7 @@ fn bi_preamble<const CLS: u8>() {
             kani::cover!(k >= 2 && app[0] == 0x00 && app[1] == 0x02, "application bytes that look like a DATA frame");
             core::mem::forget(f);
         }
-        Err(_) => assert!(false, "acceptor refused a preamble written by the opener"),
+        Err(_) => assert!(false, "acceptor refused a well-formed preamble"),
     }
 }
 
@@ -185,57 +191,113 @@ fn c01_uni_preamble_id8() {
 // @h props=C01,C16 tier=quick t=2400 mem=20 sub=bi-preamble
 // @fn wtransport-proto/src/stream.rs StreamBiLocalH3::{upgrade_async,upgrade_size} StreamBiRemoteH3::{read_frame_async,upgrade}; wtransport-proto/src/frame.rs Frame::{write_async,read_async,new_webtransport}
 // @bound every session id whose varint is 1-byte long (classes 1- and 8-byte in the quick tier, 2- and 4-byte in thorough); 0..=4 application bytes after the preamble, symbolic (bytes that look like a varint prefix 0xC0.., a frame or another preamble included); byte-wise delivery (other chunkings / Pending: C15 L1)
-// @oracle the opener writes exactly varint(0x41)||varint(sid) (reference encoder) == upgrade_size bytes and nothing else; the acceptor yields a WebTransport stream with the same session id having consumed exactly those bytes; the bytes that follow are the application bytes, untouched and in order
+// @oracle reader half: on the reference preamble varint(0x41)||varint(sid) (what the writer half c01_bi_preamble_writer_* proves the opener emits) followed by the application bytes, the acceptor's first frame is the WT signal with the same session id, exactly the preamble is consumed, and the bytes that follow are the application bytes, untouched and in order
 // @assume From<io::Error> stubs; model source/sink never fail
 // @outside ordered reliable delivery, flow control, FIN, concurrency between streams (quinn); hand-off through the worker's channels (C08, not applicable)
+// @unwindset read_frame_async:3
 #[kani::proof]
 #[kani::unwind(12)]
 #[kani::stub(<wtransport_proto::bytes::IoReadError as std::convert::From<std::io::Error>>::from, crate::common::io_read_err_stub)]
 #[kani::stub(<wtransport_proto::bytes::IoWriteError as std::convert::From<std::io::Error>>::from, crate::common::io_write_err_stub)]
 fn c01_bi_preamble_id1() {
-    bi_preamble::<0>()
+    bi_preamble_reader::<0>()
 }
 
 // @h props=C01,C16 tier=thorough t=2400 mem=20 sub=bi-preamble
 // @fn wtransport-proto/src/stream.rs StreamBiLocalH3::{upgrade_async,upgrade_size} StreamBiRemoteH3::{read_frame_async,upgrade}; wtransport-proto/src/frame.rs Frame::{write_async,read_async,new_webtransport}
 // @bound every session id whose varint is 2-byte long (classes 1- and 8-byte in the quick tier, 2- and 4-byte in thorough); 0..=4 application bytes after the preamble, symbolic (bytes that look like a varint prefix 0xC0.., a frame or another preamble included); byte-wise delivery (other chunkings / Pending: C15 L1)
-// @oracle the opener writes exactly varint(0x41)||varint(sid) (reference encoder) == upgrade_size bytes and nothing else; the acceptor yields a WebTransport stream with the same session id having consumed exactly those bytes; the bytes that follow are the application bytes, untouched and in order
+// @oracle reader half: on the reference preamble varint(0x41)||varint(sid) (what the writer half c01_bi_preamble_writer_* proves the opener emits) followed by the application bytes, the acceptor's first frame is the WT signal with the same session id, exactly the preamble is consumed, and the bytes that follow are the application bytes, untouched and in order
 // @assume From<io::Error> stubs; model source/sink never fail
 // @outside ordered reliable delivery, flow control, FIN, concurrency between streams (quinn); hand-off through the worker's channels (C08, not applicable)
+// @unwindset read_frame_async:3
 #[kani::proof]
 #[kani::unwind(12)]
 #[kani::stub(<wtransport_proto::bytes::IoReadError as std::convert::From<std::io::Error>>::from, crate::common::io_read_err_stub)]
 #[kani::stub(<wtransport_proto::bytes::IoWriteError as std::convert::From<std::io::Error>>::from, crate::common::io_write_err_stub)]
 fn c01_bi_preamble_id2() {
-    bi_preamble::<1>()
+    bi_preamble_reader::<1>()
 }
 
 // @h props=C01,C16 tier=thorough t=2400 mem=20 sub=bi-preamble
 // @fn wtransport-proto/src/stream.rs StreamBiLocalH3::{upgrade_async,upgrade_size} StreamBiRemoteH3::{read_frame_async,upgrade}; wtransport-proto/src/frame.rs Frame::{write_async,read_async,new_webtransport}
 // @bound every session id whose varint is 4-byte long (classes 1- and 8-byte in the quick tier, 2- and 4-byte in thorough); 0..=4 application bytes after the preamble, symbolic (bytes that look like a varint prefix 0xC0.., a frame or another preamble included); byte-wise delivery (other chunkings / Pending: C15 L1)
-// @oracle the opener writes exactly varint(0x41)||varint(sid) (reference encoder) == upgrade_size bytes and nothing else; the acceptor yields a WebTransport stream with the same session id having consumed exactly those bytes; the bytes that follow are the application bytes, untouched and in order
+// @oracle reader half: on the reference preamble varint(0x41)||varint(sid) (what the writer half c01_bi_preamble_writer_* proves the opener emits) followed by the application bytes, the acceptor's first frame is the WT signal with the same session id, exactly the preamble is consumed, and the bytes that follow are the application bytes, untouched and in order
 // @assume From<io::Error> stubs; model source/sink never fail
 // @outside ordered reliable delivery, flow control, FIN, concurrency between streams (quinn); hand-off through the worker's channels (C08, not applicable)
+// @unwindset read_frame_async:3
 #[kani::proof]
 #[kani::unwind(12)]
 #[kani::stub(<wtransport_proto::bytes::IoReadError as std::convert::From<std::io::Error>>::from, crate::common::io_read_err_stub)]
 #[kani::stub(<wtransport_proto::bytes::IoWriteError as std::convert::From<std::io::Error>>::from, crate::common::io_write_err_stub)]
 fn c01_bi_preamble_id4() {
-    bi_preamble::<2>()
+    bi_preamble_reader::<2>()
 }
 
 // @h props=C01,C16 tier=quick t=2400 mem=20 sub=bi-preamble
 // @fn wtransport-proto/src/stream.rs StreamBiLocalH3::{upgrade_async,upgrade_size} StreamBiRemoteH3::{read_frame_async,upgrade}; wtransport-proto/src/frame.rs Frame::{write_async,read_async,new_webtransport}
 // @bound every session id whose varint is 8-byte long (classes 1- and 8-byte in the quick tier, 2- and 4-byte in thorough); 0..=4 application bytes after the preamble, symbolic (bytes that look like a varint prefix 0xC0.., a frame or another preamble included); byte-wise delivery (other chunkings / Pending: C15 L1)
-// @oracle the opener writes exactly varint(0x41)||varint(sid) (reference encoder) == upgrade_size bytes and nothing else; the acceptor yields a WebTransport stream with the same session id having consumed exactly those bytes; the bytes that follow are the application bytes, untouched and in order
+// @oracle reader half: on the reference preamble varint(0x41)||varint(sid) (what the writer half c01_bi_preamble_writer_* proves the opener emits) followed by the application bytes, the acceptor's first frame is the WT signal with the same session id, exactly the preamble is consumed, and the bytes that follow are the application bytes, untouched and in order
 // @assume From<io::Error> stubs; model source/sink never fail
 // @outside ordered reliable delivery, flow control, FIN, concurrency between streams (quinn); hand-off through the worker's channels (C08, not applicable)
+// @unwindset read_frame_async:3
 #[kani::proof]
 #[kani::unwind(12)]
 #[kani::stub(<wtransport_proto::bytes::IoReadError as std::convert::From<std::io::Error>>::from, crate::common::io_read_err_stub)]
 #[kani::stub(<wtransport_proto::bytes::IoWriteError as std::convert::From<std::io::Error>>::from, crate::common::io_write_err_stub)]
 fn c01_bi_preamble_id8() {
-    bi_preamble::<3>()
+    bi_preamble_reader::<3>()
+}
+
+// @h props=C01,C16 tier=quick t=2400 mem=20 sub=bi-preamble-writer
+// @fn wtransport-proto/src/stream.rs StreamBiLocalH3::{upgrade_async,upgrade_size}; wtransport-proto/src/frame.rs Frame::{write_async,new_webtransport}; wtransport-proto/src/bytes.rs PutVarint
+// @bound every session id whose varint is 1 byte(s) long; byte-wise model sink
+// @oracle the opener writes exactly varint(0x41)||varint(sid) (reference encoder) == upgrade_size bytes and nothing else
+// @assume From<io::Error> stubs; model sink never fails
+#[kani::proof]
+#[kani::unwind(12)]
+#[kani::stub(<wtransport_proto::bytes::IoReadError as std::convert::From<std::io::Error>>::from, crate::common::io_read_err_stub)]
+#[kani::stub(<wtransport_proto::bytes::IoWriteError as std::convert::From<std::io::Error>>::from, crate::common::io_write_err_stub)]
+fn c01_bi_preamble_writer_id1() {
+    bi_preamble_writer::<0>()
+}
+
+// @h props=C01,C16 tier=quick t=2400 mem=20 sub=bi-preamble-writer
+// @fn wtransport-proto/src/stream.rs StreamBiLocalH3::{upgrade_async,upgrade_size}; wtransport-proto/src/frame.rs Frame::{write_async,new_webtransport}; wtransport-proto/src/bytes.rs PutVarint
+// @bound every session id whose varint is 8 byte(s) long; byte-wise model sink
+// @oracle the opener writes exactly varint(0x41)||varint(sid) (reference encoder) == upgrade_size bytes and nothing else
+// @assume From<io::Error> stubs; model sink never fails
+#[kani::proof]
+#[kani::unwind(12)]
+#[kani::stub(<wtransport_proto::bytes::IoReadError as std::convert::From<std::io::Error>>::from, crate::common::io_read_err_stub)]
+#[kani::stub(<wtransport_proto::bytes::IoWriteError as std::convert::From<std::io::Error>>::from, crate::common::io_write_err_stub)]
+fn c01_bi_preamble_writer_id8() {
+    bi_preamble_writer::<3>()
+}
+
+// @h props=C01,C16 tier=thorough t=2400 mem=20 sub=bi-preamble-writer
+// @fn wtransport-proto/src/stream.rs StreamBiLocalH3::{upgrade_async,upgrade_size}; wtransport-proto/src/frame.rs Frame::{write_async,new_webtransport}; wtransport-proto/src/bytes.rs PutVarint
+// @bound every session id whose varint is 2 byte(s) long; byte-wise model sink
+// @oracle the opener writes exactly varint(0x41)||varint(sid) (reference encoder) == upgrade_size bytes and nothing else
+// @assume From<io::Error> stubs; model sink never fails
+#[kani::proof]
+#[kani::unwind(12)]
+#[kani::stub(<wtransport_proto::bytes::IoReadError as std::convert::From<std::io::Error>>::from, crate::common::io_read_err_stub)]
+#[kani::stub(<wtransport_proto::bytes::IoWriteError as std::convert::From<std::io::Error>>::from, crate::common::io_write_err_stub)]
+fn c01_bi_preamble_writer_id2() {
+    bi_preamble_writer::<1>()
+}
+
+// @h props=C01,C16 tier=thorough t=2400 mem=20 sub=bi-preamble-writer
+// @fn wtransport-proto/src/stream.rs StreamBiLocalH3::{upgrade_async,upgrade_size}; wtransport-proto/src/frame.rs Frame::{write_async,new_webtransport}; wtransport-proto/src/bytes.rs PutVarint
+// @bound every session id whose varint is 4 byte(s) long; byte-wise model sink
+// @oracle the opener writes exactly varint(0x41)||varint(sid) (reference encoder) == upgrade_size bytes and nothing else
+// @assume From<io::Error> stubs; model sink never fails
+#[kani::proof]
+#[kani::unwind(12)]
+#[kani::stub(<wtransport_proto::bytes::IoReadError as std::convert::From<std::io::Error>>::from, crate::common::io_read_err_stub)]
+#[kani::stub(<wtransport_proto::bytes::IoWriteError as std::convert::From<std::io::Error>>::from, crate::common::io_write_err_stub)]
+fn c01_bi_preamble_writer_id4() {
+    bi_preamble_writer::<2>()
 }
 
 // @h props=C01 tier=quick t=2400 sub=sync-preamble
